@@ -578,7 +578,11 @@ class Name:
                     strio.write(struct.pack("!H", 0xC000 | compDict[name]))
                     return
                 else:
-                    compDict[name] = strio.tell() + Message.headerSize
+                    offset = strio.tell() + Message.headerSize
+                    # A compression pointer carries a 14 bit offset: names
+                    # written further into the message cannot be referred to.
+                    if offset < 0x4000:
+                        compDict[name] = offset
             ind = name.find(b".")
             if ind > 0:
                 label, name = name[:ind], name[ind + 1 :]
@@ -587,6 +591,10 @@ class Name:
                 label = name
                 name = None
                 ind = len(label)
+            if ind > 63:
+                # The two high bits of the length byte are reserved (they mark
+                # a compression pointer).
+                raise ValueError(f"DNS label longer than 63 bytes: {label!r}")
             strio.write(_ord2bytes(ind))
             strio.write(label)
         strio.write(b"\x00")
